@@ -102,6 +102,21 @@ theorem newcomer_state_is_one_critical_section :
     first calls_in_vikja_handleParticipantJoin "m.currentSession.Exclusive" = some 0 ∧
     first calls_in_odal_handleParticipantJoin "m.currentSession.Exclusive" = some 0 := by decide
 
+/-! ### the clean-up of a refused delete request (`Model/Premature`, `Props/C05Premature`, F46) -/
+
+/-- the modules' clean-up on a delete request looks the entity up inside the critical section that removes: the handler
+    calls the removing method and nothing that removes without it; the method holds the module state's lock in write
+    mode to the end and calls the look-up it is given (`keep`) before `delete` -/
+theorem cleanup_looks_up_under_the_state_lock :
+    first calls_in_odal_handleEntityDelete "m.state.RemoveAssetInstanceUnless" = some 0 ∧
+    calls_in_odal_handleEntityDelete.contains "m.state.RemoveAssetInstance" = false ∧
+    first calls_in_vikja_handleEntityDelete "m.state.RemoveEntityActionsUnless" = some 0 ∧
+    calls_in_vikja_handleEntityDelete.contains "m.state.RemoveEntityActions" = false ∧
+    locks_odal_State_RemoveAssetInstanceUnless = ["assetMutex.Lock", "defer assetMutex.Unlock"] ∧
+    locks_vikja_State_RemoveEntityActionsUnless = ["entityActionMutex.Lock", "defer entityActionMutex.Unlock"] ∧
+    before calls_odal_State_RemoveAssetInstanceUnless "keep" "delete" = true ∧
+    before calls_vikja_State_RemoveEntityActionsUnless "keep" "delete" = true := by decide
+
 /-! ### one key of the component store (`Model/AddOnce`, `Props/C12Add`) -/
 
 /-- `Add` and `Delete` look the key up and change the map under one write lock held to the end; no other method of the
